@@ -105,7 +105,12 @@ def next_section(name="", report=MAIN_REPORT):
             new_code = ''.join(sections[section_index])
             old_code = ''.join(sections[:section_index])
             # Count the lines the way Python does: a lone \r ends a line too
-            report.submission.set_line_offset(len(re.findall(r'\r\n|\r|\n', old_code)))
+            line_ends = len(re.findall(r'\r\n|\r|\n', old_code))
+            if old_code.endswith('\r') and new_code.startswith('\n'):
+                # In a file with \r\n line ends the marker takes the \r along:
+                # that \r and the \n the section starts with are one line end
+                line_ends -= 1
+            report.submission.set_line_offset(line_ends)
         else:
             new_code = ''.join(sections[:section_index + 1])
         report.submission.replace_main(new_code)
